@@ -146,9 +146,17 @@ CREDS = {
 }
 # client credentials usable against an OpenSSL server that verifies (must be inside their validity period)
 CLIENT_CREDS = {
-    "client_rsa": ("clientX509Cert.pem", "clientX509Key.pem"),
-    "client_ecdsa": ("clientECCert.pem", "clientECKey.pem"),
+    "client_rsa": ("clientX509Cert.pem", "clientX509Key.pem"),        # RSA 1024
+    "client_ecdsa": ("clientECCert.pem", "clientECKey.pem"),          # P-256
+    # the following are expired or server certificates: usable only towards a tlslite server (which does not
+    # validate the chain) and, in the OpenSSL<->OpenSSL control, with X509_V_FLAG_NO_CHECK_TIME
+    "client_rsa2048": ("serverX509Cert.pem", "serverX509Key.pem"),
+    "client_rsapss": ("serverRSAPSSCert.pem", "serverRSAPSSKey.pem"),
+    "client_ecdsa384": ("serverP384ECCert.pem", "serverP384ECKey.pem"),
+    "client_ecdsa521": ("serverP521ECCert.pem", "serverP521ECKey.pem"),
+    "client_ed25519": ("clientEd25519Cert.pem", "clientEd25519Key.pem"),
 }
+X509_V_FLAG_NO_CHECK_TIME = 0x200000
 
 
 def parse_iana(name):
@@ -707,8 +715,9 @@ TL_DEFAULT_DHGROUPS = ["ffdhe2048", "ffdhe3072", "ffdhe4096", "ffdhe6144", "ffdh
 
 def tl_cfg(role, minv=(3, 1), maxv=(3, 4), ciphers=None, macs=None, kx=None, curves=None, dhgroups=None,
            keyshares=None, cred=None, client_cred=None, req_cert=False, alpn=None, tickets=False, cache=False,
-           anon=False):
-    return {"role": role, "minv": list(minv), "maxv": list(maxv), "ciphers": ciphers, "macs": macs, "kx": kx,
+           anon=False, ecdsa_hashes=None, rsa_hashes=None, rsa_schemes=None, more_sigs=None):
+    return {"ecdsa_hashes": ecdsa_hashes, "rsa_hashes": rsa_hashes, "rsa_schemes": rsa_schemes, "more_sigs": more_sigs,
+            "role": role, "minv": list(minv), "maxv": list(maxv), "ciphers": ciphers, "macs": macs, "kx": kx,
             "curves": curves, "dhgroups": dhgroups, "keyshares": keyshares, "cred": cred,
             "client_cred": client_cred, "req_cert": req_cert, "alpn": alpn, "tickets": tickets, "cache": cache,
             "anon": anon}
@@ -738,6 +747,14 @@ def tl_settings(cfg, ticket_keys=None):
     else:
         # a key share for the first configured group so that the common case needs no HelloRetryRequest
         s.keyShares = [(s.eccCurves + s.dhGroups)[0]] if (s.eccCurves + s.dhGroups) else []
+    if cfg.get("ecdsa_hashes") is not None:
+        s.ecdsaSigHashes = list(cfg["ecdsa_hashes"])
+    if cfg.get("rsa_hashes") is not None:
+        s.rsaSigHashes = list(cfg["rsa_hashes"])
+    if cfg.get("rsa_schemes") is not None:
+        s.rsaSchemes = list(cfg["rsa_schemes"])
+    if cfg.get("more_sigs") is not None:
+        s.more_sig_schemes = list(cfg["more_sigs"])
     if cfg["tickets"] and ticket_keys is not None:
         s.ticketKeys = [bytearray(ticket_keys)]
     if not cfg["tickets"]:
@@ -791,6 +808,29 @@ TL13_EXTRA_SIGS = [SIG["ecdsa_brainpoolP256r1tls13_sha256"], SIG["ecdsa_brainpoo
                    SIG["ecdsa_brainpoolP512r1tls13_sha512"]]
 
 
+ECDSA_BY_HASH = {"sha1": 0x0203, "sha224": 0x0303, "sha256": 0x0403, "sha384": 0x0503, "sha512": 0x0603}
+
+
+def tl_sigs(cfg):
+    """signature schemes a tlslite endpoint lists (signature_algorithms / CertificateRequest), from the documented
+    meaning of rsaSigHashes x rsaSchemes, ecdsaSigHashes, dsaSigHashes (default), more_sig_schemes"""
+    allh = ["sha512", "sha384", "sha256", "sha224", "sha1"]
+    rh = cfg.get("rsa_hashes") if cfg.get("rsa_hashes") is not None else allh
+    rs = cfg.get("rsa_schemes") if cfg.get("rsa_schemes") is not None else ["pss", "pkcs1"]
+    eh = cfg.get("ecdsa_hashes") if cfg.get("ecdsa_hashes") is not None else allh
+    ms = cfg.get("more_sigs") if cfg.get("more_sigs") is not None else ["Ed25519", "Ed448"]
+    out = []
+    for h in rh:
+        if "pkcs1" in rs:
+            out.append(SIG["rsa_pkcs1_" + h])
+        if "pss" in rs and h in ("sha256", "sha384", "sha512"):
+            out += [SIG["rsa_pss_rsae_" + h], SIG["rsa_pss_pss_" + h]]
+    out += [ECDSA_BY_HASH[h] for h in eh]
+    out += [SIG["dsa_" + h] for h in allh]
+    out += [SIG[m.lower()] for m in ms if m.lower() in SIG]
+    return sorted(out)
+
+
 def tl_caps(cfg):
     """what a tlslite endpoint with this configuration is documented to offer / accept"""
     vs = [code for v, code in sorted(VERS.items()) if tuple(cfg["minv"]) <= v <= tuple(cfg["maxv"])]
@@ -822,7 +862,7 @@ def tl_caps(cfg):
     curves = cfg["curves"] if cfg["curves"] is not None else TL_DEFAULT_CURVES
     dhg = cfg["dhgroups"] if cfg["dhgroups"] is not None else TL_DEFAULT_DHGROUPS
     groups = [GROUPS[g] for g in curves] + [GROUPS[g] for g in dhg]
-    return {"versions": vs, "suites": suites, "groups": groups, "sigs": list(TL_DEFAULT_SIGS)}
+    return {"versions": vs, "suites": suites, "groups": groups, "sigs": tl_sigs(cfg)}
 
 
 # OpenSSL 3.0 defaults (ssl/t1_lib.c: supported_groups_default, tls12_sigalgs), as shipped in this image
@@ -1300,7 +1340,19 @@ def py_expected(cc, sc, cred):
     return ("ok", v, params)
 
 
-CLIENT_KEY = {"client_rsa": ("rsa", 0), "client_ecdsa": ("ecdsa", 23)}
+CLIENT_KEY = {"client_rsa": ("rsa", 0), "client_ecdsa": ("ecdsa", 23), "client_rsa2048": ("rsa", 0),
+              "client_rsapss": ("rsapss", 0), "client_ecdsa384": ("ecdsa", 24), "client_ecdsa521": ("ecdsa", 25),
+              "client_ed25519": ("ed25519", 0)}
+
+
+def py_client_sig_ok(v, cc, sc, kt, curve):
+    common = [x for x in cc["sigs"] if x in sc["sigs"]]
+    if v == 0x0304:
+        fit = (ECDSA13.get(curve),) if kt == "ecdsa" else SIG13[kt]
+        return any(x in fit for x in common)
+    if v == 0x0303:
+        return any(x in SIG12[kt] for x in common)
+    return kt in ("rsa", "dsa", "ecdsa")
 
 
 def py_client_cert_ok(v, cc, sc, kt, curve):
@@ -1353,7 +1405,7 @@ def control(cb, tcaps):
             cctx, sctx = cached_ctx(osc, fresh=True), make_ossl_ctx(mir)
             if mir.req_cert:
                 import ssl
-                sctx.verify_flags |= ssl.VERIFY_X509_PARTIAL_CHAIN
+                sctx.verify_flags |= ssl.VERIFY_X509_PARTIAL_CHAIN | X509_V_FLAG_NO_CHECK_TIME
         sess = None
         for i in range(2 if cb["resume"] else 1):
             if i == 1 and cb["decline"]:
@@ -1414,6 +1466,7 @@ def run_combo(cb, lc=None, ticket_key=b"\x07" * 32):
             R.disagreements.append(("lean-vs-python-expectation", le, exp))
     # client certificate: an ECDSA certificate's curve must be a group both sides list (TLS <= 1.2)
     client_cert_unspecified = False
+    client_sig_none = False
     ccred = cb["os"].get("client_cred")
     if ccred and exp[0] == "ok":
         ck, kcurve = CLIENT_KEY[ccred]
@@ -1422,6 +1475,17 @@ def run_combo(cb, lc=None, ticket_key=b"\x07" * 32):
             lo = lc.ask("ccert %d %s %s %s %d" % (exp[1], nats(ccaps["groups"]), nats(scaps["groups"]), ck, kcurve))
             if lo != ("true" if ok else "false"):
                 R.disagreements.append(("lean-vs-python-clientcert", lo, ok))
+        if exp[1] >= 0x0303:
+            sok = py_client_sig_ok(exp[1], ccaps, scaps, ck, kcurve)
+            if lc is not None:
+                lo = lc.ask("csig %d %s %s %s %d" % (exp[1], nats(ccaps["sigs"]), nats(scaps["sigs"]), ck, kcurve))
+                if lo != ("true" if sok else "false"):
+                    R.disagreements.append(("lean-vs-python-clientsig", lo, sok))
+            if not sok:
+                # no scheme listed by both fits the client key: the client may send no certificate or the
+                # handshake may fail; both are tolerated
+                client_cert_unspecified = True
+                client_sig_none = True
         if not ok:
             # whether a server accepts such a certificate is implementation policy (OpenSSL checks the
             # client's list in TLS 1.2 only, tlslite checks its own list): both outcomes are tolerated
@@ -1526,7 +1590,8 @@ def run_combo(cb, lc=None, ticket_key=b"\x07" * 32):
                 R.notes.append("no common ALPN protocol: handshake refused (allowed by RFC 7301)")
                 break
             if not both_done and client_cert_unspecified and "stall" not in (o["tl_state"], o["os_state"]):
-                R.notes.append("client ECDSA certificate on a curve not listed by both sides: refused (implementation policy)")
+                R.notes.append("no signature scheme listed by both fits the client key: handshake refused" if client_sig_none else
+                               "client ECDSA certificate on a curve not listed by both sides: refused (implementation policy)")
                 break
             if not both_done:
                 ctrl = get_control()
@@ -1612,7 +1677,7 @@ def run_combo(cb, lc=None, ticket_key=b"\x07" * 32):
                     der = pr.os.obj.getpeercert(True)
                     if der != pem_der(os.path.join(d, CREDS[tlc["cred"]][0])):
                         R.violations.append((label + ":peer-cert", "OpenSSL client received a different server certificate"))
-                if cb["os"].get("client_cred") and not (i == 1 and o["os_resumed"]):
+                if cb["os"].get("client_cred") and not (i == 1 and o["os_resumed"]) and not client_sig_none:
                     want_der = pem_der(os.path.join(d, CLIENT_CREDS[cb["os"]["client_cred"]][0]))
                     if role == "client":
                         got_der = pr.os.obj.getpeercert(True)
@@ -1775,6 +1840,44 @@ def gen_combos(ctx):
                 for sid in sids:
                     yield make_combo(role, v, sid, "both", client_cred=cc, tag="clientauth", pay_seed=seed())
 
+    # E'. client CertificateVerify: client certificate kind x signature-hash restriction x TLS 1.2 / 1.3.
+    #     tlslite server (restriction = what its CertificateRequest lists) <- OpenSSL client with every kind;
+    #     tlslite client (restriction = what it is willing to sign with) -> OpenSSL server (stdlib cannot restrict
+    #     OpenSSL's sigalgs, so its default list is the other record).  Expectation: a scheme listed by both that
+    #     fits the client key exists => the handshake completes and the certificate arrives.
+    hashes12 = ["sha1", "sha224", "sha256", "sha384", "sha512"]
+    hashes13 = ["sha256", "sha384", "sha512"]
+    for v in (0x0303, 0x0304):
+        hs = hashes12 if v == 0x0303 else hashes13
+        for cc in ("client_ecdsa", "client_ecdsa384", "client_ecdsa521"):
+            for h in hs:      # hash smaller than / equal to / larger than the curve
+                yield make_combo("server", v, None, "both", client_cred=cc, tag="clientauth-sig", pay_seed=seed(),
+                                 tl_extra={"ecdsa_hashes": [h]})
+        for h in hs:
+            for schemes in (["pkcs1"], ["pss"], ["pss", "pkcs1"]):
+                yield make_combo("server", v, None, "both", client_cred="client_rsa2048", tag="clientauth-sig",
+                                 pay_seed=seed(), tl_extra={"rsa_hashes": [h], "rsa_schemes": schemes})
+            if h in hashes13:
+                yield make_combo("server", v, None, "both", client_cred="client_rsapss", tag="clientauth-sig",
+                                 pay_seed=seed(), tl_extra={"rsa_hashes": [h], "rsa_schemes": ["pss"]})
+            if h != "sha512":
+                yield make_combo("server", v, None, "both", client_cred="client_rsa", tag="clientauth-sig",
+                                 pay_seed=seed(), tl_extra={"rsa_hashes": [h]})
+        yield make_combo("server", v, None, "both", client_cred="client_ed25519", tag="clientauth-sig", pay_seed=seed())
+        yield make_combo("server", v, None, "both", client_cred="client_ed25519", tag="clientauth-sig", pay_seed=seed(),
+                         tl_extra={"more_sigs": ["Ed25519"], "ecdsa_hashes": ["sha256"], "rsa_hashes": ["sha256"]})
+        yield make_combo("server", v, None, "both", client_cred="client_ed25519", tag="clientauth-sig", pay_seed=seed(),
+                         tl_extra={"more_sigs": ["Ed448"]})
+        # tlslite as the signing client
+        for h in hs:
+            yield make_combo("client", v, None, "both", client_cred="client_ecdsa", tag="clientauth-sig", pay_seed=seed(),
+                             tl_extra={"ecdsa_hashes": [h]})
+            for schemes in (["pkcs1"], ["pss"]):
+                if h == "sha512" and schemes == ["pss"]:
+                    continue      # a 1024-bit key cannot make an RSA-PSS-SHA512 signature
+                yield make_combo("client", v, None, "both", client_cred="client_rsa", tag="clientauth-sig", pay_seed=seed(),
+                                 tl_extra={"rsa_hashes": [h], "rsa_schemes": schemes})
+
     # F. ALPN (overlapping lists only: without overlap RFC 7301 lets the server choose between
     #    a fatal alert and proceeding without ALPN, and the two libraries choose differently)
     alpn_cases = [([b"h2", b"http/1.1"], [b"http/1.1", b"h2"]), ([b"h2"], [b"h2"]),
@@ -1930,9 +2033,10 @@ def report(ctx, cb, R):
     from ..core import jsonable
     rep = {"combo": cb, "expected": R.expected, "connections": R.conns, "notes": R.notes}
     for key, what in R.violations:
-        ctx.violation(key, what + "  [combination: tlslite as %s, %s, %s, restrict=%s, cred=%s, group=%s, resume=%s]" % (
+        ctx.violation(key, what + "  [combination: tlslite as %s, %s, %s, restrict=%s, cred=%s, group=%s, resume=%s, client cert=%s, tlslite signature settings=%s]" % (
             cb["role"], VER_LABEL.get(cb["ver"]), SUITE_NAME.get(cb["suite"]), cb["restrict"], cb["cred"], cb["group"],
-            cb["resume"]), dict(jsonable(rep), stage="live"))
+            cb["resume"], cb["os"].get("client_cred"),
+            {k: cb["tl"].get(k) for k in ("ecdsa_hashes", "rsa_hashes", "rsa_schemes", "more_sigs") if cb["tl"].get(k)} or "default"), dict(jsonable(rep), stage="live"))
     for stream, model, impl in R.disagreements:
         ctx.disagree(stream, {"combo": cb}, model, impl)
 
@@ -1971,7 +2075,7 @@ def run(ctx):
     ctx.rule = ("combination = (tlslite role, pinned version, pinned suite, group, server key type, client certificate, "
                 "ALPN lists, resumption mechanism, payload sizes, which side is pinned); families: every mutual suite x "
                 "version x role; bulk transfer 0/1/100/16384/16385/50000 per record protection; groups incl. FFDHE and "
-                "HelloRetryRequest; key types; client auth; ALPN; session-ID / ticket / PSK resumption incl. declined; "
+                "HelloRetryRequest; key types; client auth (certificate kind x signature-hash restriction); ALPN; session-ID / ticket / PSK resumption incl. declined; "
                 "enumerated products resumption x HelloRetryRequest x client auth x ALPN; "
                 "disjoint configurations; one-sided version pins; random points of the product. distinct = distinct "
                 "pair of configurations + mechanism + payload plan; non-trivial = a live handshake was attempted")
